@@ -28,6 +28,7 @@ import (
 
 	"google.golang.org/genproto/googleapis/api/annotations"
 	"google.golang.org/genproto/googleapis/api/httpbody"
+	"google.golang.org/genproto/googleapis/api/serviceconfig"
 	"google.golang.org/grpc"
 	"google.golang.org/grpc/metadata"
 	"google.golang.org/protobuf/encoding/protojson"
@@ -54,6 +55,9 @@ type TcAbs struct {
 	ZeroPath bool   `json:"zeropath"` // p1 carries the zero value of its kind (0, false, enum 0)
 	CompSub  bool   `json:"compsub"`  // a query key names a SUB-field of the path-bound field (wrapper .value, Timestamp/Duration .seconds)
 	Ws       bool   `json:"ws"`       // the request is a WebSocket session: rule kind WEBSOCKET, the body is the first text frame
+	Upload   bool   `json:"upload"`   // the request is an HttpBody upload read with AsHTTPBodyReader (see runUploadCase)
+	Rev      bool   `json:"rev"`      // rolling upgrade: FilesOption holds a newer revision of the messages (every field index moved)
+	Sibling  bool   `json:"sibling"`  // a string path variable takes the text of a sibling rule's literal segment (that rule has another verb / is longer)
 	ManyQ    bool   `json:"manyq"`    // fourteen further query parameters (values of a repeated field): more than a dozen parameters in all
 	Accept   string `json:"accept"`   // Accept header of the request: "" | */* | other (the codec the body is NOT in) | same
 	Framing  string `json:"framing"`  // how the request body is delimited: "" sized | unsized (HTTP/2, no content-length) | chunked (HTTP/1.1)
@@ -445,8 +449,91 @@ func keyFor(path []string, spell string) string {
 
 // ---- one request case ---------------------------------------------------------------------
 
+// runUploadCase: a client-streaming upload whose body is a google.api.HttpBody field and whose handler reads it with
+// larking.AsHTTPBodyReader (the header message carries the path-bound field); a query parameter competes with the path.
+func runUploadCase(c TcAbs, r *rng) TcEv {
+	ev := TcEv{Ev: "Tc", Case: c.ID, C: c, Tags: map[string]string{}, Fields: map[string]string{"p1": "s:string"}}
+	pathVal := []string{"cat.jpg", "a-b_c", "ünï", "x"}[r.Intn(4)]
+	rule := httpRule("POST", "/tc/up/{s}")
+	rule.Body = "hb"
+	svc := ServiceSpec{Name: "Up", Methods: []MethodSpec{{Name: "Upload", Rule: rule, ClientStream: true}}}
+	files, sds, err := BuildFiles([]ServiceSpec{svc})
+	if err != nil {
+		ev.Crash = "setup: " + err.Error()
+		return ev
+	}
+	mux, err := larking.NewMux(larking.FilesOption(files))
+	if err != nil {
+		ev.Crash = "setup: " + err.Error()
+		return ev
+	}
+	var got *dynamicpb.Message
+	var nread int
+	st := func(full string, md protoreflect.MethodDescriptor, ss grpcServerStream) error {
+		m := dynamicpb.NewMessage(reqDesc())
+		rd, err := larking.AsHTTPBodyReader(ss, m)
+		if err != nil {
+			return err
+		}
+		b, err := io.ReadAll(rd)
+		if err != nil {
+			return err
+		}
+		got, nread = m, len(b)
+		return ss.SendMsg(repMsg(c.ID, 1, 0))
+	}
+	if err := larking.VerifRegisterService(mux, MakeServiceDesc(sds[0], nil, st), struct{}{}); err != nil {
+		ev.Crash = "setup: register: " + err.Error()
+		return ev
+	}
+	data := bytes.Repeat([]byte("upload "), 50+r.Intn(200))
+	q := url.Values{}
+	q.Set("s", "evil.jpg")
+	if r.Bool() {
+		q.Set("t", "other") // a second, harmless parameter
+	}
+	req := httptest.NewRequest("POST", "http://verif.test/", bytes.NewReader(data))
+	req.URL = &url.URL{Scheme: "http", Host: "verif.test", Path: "/tc/up/" + pathVal, RawQuery: q.Encode()}
+	req.Header.Set("Content-Type", "image/jpeg")
+	req.Header.Set("Accept", "application/json")
+	ev.URL = "POST " + req.URL.Path + "?" + req.URL.RawQuery
+	w := httptest.NewRecorder()
+	func() {
+		defer func() {
+			if p := recover(); p != nil {
+				ev.Crash = fmt.Sprintf("panic: %v", p)
+			}
+		}()
+		mux.ServeHTTP(w, req)
+	}()
+	ev.Status = w.Code
+	if ev.Crash != "" {
+		return ev
+	}
+	ev.Delivered = got != nil && nread == len(data)
+	for _, k := range []string{"p1", "p2", "q1", "q2", "r", "n", "b1", "b2"} {
+		ev.Tags[k] = "absent"
+	}
+	if got == nil {
+		ev.Got = truncate(w.Body.String(), 160)
+		return ev
+	}
+	switch got.Get(reqDesc().Fields().ByName("s")).String() {
+	case pathVal:
+		ev.Tags["p1"] = "true"
+	case "evil.jpg":
+		ev.Tags["p1"] = "comp"
+	default:
+		ev.Tags["p1"] = "other"
+	}
+	return ev
+}
+
 func runTcCase(c TcAbs, seed int64) TcEv {
 	r := newRng(seed, c.ID, 31)
+	if c.Upload {
+		return runUploadCase(c, r)
+	}
 	ev := TcEv{Ev: "Tc", Case: c.ID, C: c, Tags: map[string]string{}, Fields: map[string]string{}}
 	present := map[string]bool{}
 	for _, p := range c.Present {
@@ -486,6 +573,15 @@ func runTcCase(c TcAbs, seed int64) TcEv {
 		for tries := 0; forPath && vals[k].text == "" && tries < 20; tries++ { // a path segment cannot be empty
 			vals[k] = genVal(l.kind, r, c.Table, forPath)
 		}
+	}
+	if c.Sibling {
+		if k := role["p1"].kind; k == "string" {
+			t := []string{"sib", "inner"}[r.Intn(2)]
+			vals["p1"] = val{text: t, pv: protoreflect.ValueOfString(t)}
+		} else {
+			c.Sibling = false
+		}
+		ev.C.Sibling = c.Sibling
 	}
 	if c.ZeroPath { // the path carries the zero value of a presence-less kind; the competitors are non-zero
 		if z, ok := zeroVal(role["p1"].kind); ok {
@@ -666,10 +762,26 @@ func runTcCase(c TcAbs, seed int64) TcEv {
 	ev.URL = kind + " " + path + "?" + rawQuery
 	// the mux
 	svc := ServiceSpec{Name: "Tc", Methods: []MethodSpec{{Name: "Call", Rule: rule, ClientStream: c.Stream || c.Ws, ServerStream: c.Ws}}}
+	if !c.Ws {
+		// sibling rules below the same prefix: a literal leaf that only serves another verb, and a literal that is only
+		// the inner node of a longer template.  A captured value that spells one of them still belongs to the variable.
+		other := "GET"
+		if kind == "GET" {
+			other = "POST"
+		}
+		svc.Methods = append(svc.Methods,
+			MethodSpec{Name: "Sib", Rule: httpRule(other, "/tc/sib")},
+			MethodSpec{Name: "Inner", Rule: httpRule(kind, "/tc/inner/{s}/deep")})
+	}
 	files, sds, err := BuildFiles([]ServiceSpec{svc})
 	if err != nil {
 		ev.Crash = "setup: " + err.Error()
 		return ev
+	}
+	if c.Rev { // the mux is configured with a newer revision of the messages than the handler was built against
+		if fr, _, err := BuildFilesRev([]ServiceSpec{svc}); err == nil {
+			files = fr
+		}
 	}
 	mux, err := larking.NewMux(larking.FilesOption(files))
 	if err != nil {
@@ -939,14 +1051,28 @@ func runRespCase(c RespCase, seed int64) RespEv {
 	if c.Kind == "httpbody" {
 		out = ".google.api.HttpBody"
 	}
+	// every other case with a selector: the annotation declares the binding without response_body and a service-config
+	// rule re-declares the same binding with it (google.api.http: rules in the service config override the annotation)
+	var cfgOpt []larking.MuxOption
+	if c.RespBody != "" && c.ID%2 == 0 {
+		over := proto.Clone(rule).(*annotations.HttpRule)
+		over.Selector = "vs.Rs.Call"
+		rule.ResponseBody = ""
+		cfgOpt = append(cfgOpt, larking.ServiceConfigOption(&serviceconfig.Service{Http: &annotations.Http{Rules: []*annotations.HttpRule{over}}}))
+	}
 	svc := ServiceSpec{Name: "Rs", Methods: []MethodSpec{{Name: "Call", Rule: rule, Out: out}}}
 	files, sds, err := BuildFiles([]ServiceSpec{svc})
 	if err != nil {
 		ev.Crash = "setup: " + err.Error()
 		return ev
 	}
+	if c.ID%4 == 1 { // rolling upgrade: the mux knows a newer revision of the messages than the handler
+		if fr, _, err := BuildFilesRev([]ServiceSpec{svc}); err == nil {
+			files = fr
+		}
+	}
 	// a codec the user registered for a media type of their own, next to the built-in ones
-	mux, err := larking.NewMux(larking.FilesOption(files), larking.CodecOption("application/x-verif", larking.CodecJSON{}))
+	mux, err := larking.NewMux(append([]larking.MuxOption{larking.FilesOption(files), larking.CodecOption("application/x-verif", larking.CodecJSON{})}, cfgOpt...)...)
 	if err != nil {
 		ev.Crash = "setup: " + err.Error()
 		return ev
@@ -1021,12 +1147,12 @@ func runRespCase(c RespCase, seed int64) RespEv {
 		p := rg.Type
 		switch {
 		case rg.Q == 10 && r.Bool():
-		case rg.Q == 10:
-			p += ";q=1"
+		case rg.Q == 10: // every legal spelling of a weight (RFC 9110: up to three decimals)
+			p += []string{";q=1", ";q=1.0", "; q=1.00", ";q=1.000", ";Q=1"}[r.Intn(5)]
 		case rg.Q == 0:
-			p += ";q=0"
+			p += []string{";q=0", ";q=0.0", "; q=0.000", ";q=0."}[r.Intn(4)]
 		default:
-			p += fmt.Sprintf("; q=0.%d", rg.Q)
+			p += []string{fmt.Sprintf("; q=0.%d", rg.Q), fmt.Sprintf(";q=0.%d0", rg.Q), fmt.Sprintf(";q=0.%d00", rg.Q), fmt.Sprintf(" ; q=.%d", rg.Q)[0:0] + fmt.Sprintf(";q=0.%d", rg.Q)}[r.Intn(4)]
 		}
 		parts = append(parts, p)
 	}
